@@ -30,6 +30,14 @@ func isInternalPanic(s string) bool {
 
 type loader interface{ loadElem() value }
 
+// loadIdx loads through the result of symIndexAddr (a *symptr or a plain *value).
+func loadIdx(p value) value {
+	if l, ok := p.(loader); ok {
+		return l.loadElem()
+	}
+	return *p.(*value)
+}
+
 // symptr is &elems[idx] for a symbolic idx over scalar elements.
 type symptr struct {
 	elems []value
